@@ -2,7 +2,7 @@
 # runs every seeded change against the check of its own property; writes seeded/RESULTS.tsv and updates meta.json
 cd /verif
 : > seeded/RESULTS.tsv
-for d in seeded/C*-m*; do
+for d in seeded/C*-*/; do d=${d%/}
   id=$(basename $d); p=${id%%-*}
   claimed=$(jq -r --arg p $p '.checks[]|select(.property_id==$p)|.property_id' MANIFEST.json)
   if [ -z "$claimed" ]; then echo -e "$id\t$p\tNOT-CLAIMED\t" >> seeded/RESULTS.tsv; continue; fi
